@@ -11,16 +11,144 @@
 package main
 
 import (
+	"bytes"
 	"encoding/hex"
+	"encoding/json"
 	"fmt"
 	"strconv"
 	"strings"
 	"unicode/utf16"
 	"unicode/utf8"
 
+	"github.com/pdfcpu/pdfcpu/pkg/api"
+	"github.com/pdfcpu/pdfcpu/pkg/pdfcpu/model"
 	"github.com/pdfcpu/pdfcpu/pkg/pdfcpu/types"
 	"verif/vh"
 )
+
+// ---- end-to-end: texts stored by pdfcpu's own writers, read back by pdfcpu's own reader
+
+// createForm makes a one-page PDF with one date field and one text field carrying the given
+// tooltips (api.Create), reads it back and returns the /TU text strings of the two widgets.
+func createForm(tipDate, tipText string) (pdf []byte, gotDate, gotText string, err error) {
+	defer func() {
+		if p := recover(); p != nil {
+			err = fmt.Errorf("panic: %v", p)
+		}
+	}()
+	doc := map[string]any{
+		"paper": "A4P", "origin": "LowerLeft",
+		"fonts": map[string]any{"f": map[string]any{"name": "Helvetica", "size": 12}},
+		"pages": map[string]any{"1": map[string]any{"content": map[string]any{
+			"datefield": []any{map[string]any{"id": "d1", "pos": []int{100, 600}, "width": 80, "format": "d.m.yyyy", "tip": tipDate, "font": map[string]any{"name": "$f"}}},
+			"textfield": []any{map[string]any{"id": "t1", "pos": []int{100, 500}, "width": 80, "tip": tipText, "font": map[string]any{"name": "$f"}}},
+		}}},
+	}
+	js, _ := json.Marshal(doc)
+	var out bytes.Buffer
+	if err = api.Create(nil, bytes.NewReader(js), &out, model.NewDefaultConfiguration()); err != nil {
+		return nil, "", "", fmt.Errorf("create: %w", err)
+	}
+	pdf = out.Bytes()
+	ctx, err := api.ReadValidateAndOptimize(bytes.NewReader(pdf), model.NewDefaultConfiguration())
+	if err != nil {
+		return pdf, "", "", fmt.Errorf("read back: %w", err)
+	}
+	for i := 1; i < *ctx.XRefTable.Size; i++ {
+		e, ok := ctx.XRefTable.Find(i)
+		if !ok || e.Free || e.Object == nil {
+			continue
+		}
+		d, ok := e.Object.(types.Dict)
+		if !ok {
+			continue
+		}
+		tu, ok := d.Find("TU")
+		if !ok {
+			continue
+		}
+		s, err := types.StringOrHexLiteral(tu)
+		if err != nil {
+			return pdf, "", "", fmt.Errorf("TU: %w", err)
+		}
+		id, _ := d.Find("T")
+		ids, _ := types.StringOrHexLiteral(id)
+		if ids != nil && *ids == "d1" {
+			gotDate = *s
+		} else {
+			gotText = *s
+		}
+	}
+	return pdf, gotDate, gotText, nil
+}
+
+func e2eForm(tip string) {
+	in := map[string]any{"text_hex": hex.EncodeToString([]byte(tip)), "text": fmt.Sprintf("%+q", tip)}
+	// the two fields are created in separate documents so that one failure cannot mask the other
+	_, gd, _, err := createForm(tip, "plain")
+	r.Count("e2e:datefield-tooltip")
+	switch {
+	case err != nil:
+		r.OracleFail("c13-datefield-tooltip-unescaped", in, "date field tooltip (primitives/dateField.go stores EncodeUTF16String(tip) unescaped): "+err.Error())
+	case gd != tip:
+		r.OracleFail("c13-datefield-tooltip-unescaped", in, fmt.Sprintf("date field tooltip read back %+q", gd))
+	default:
+		r.OracleOK()
+	}
+	_, _, gt, err := createForm("plain", tip)
+	r.Count("e2e:textfield-tooltip")
+	switch {
+	case err != nil:
+		r.OracleFail("c13-textfield-tooltip-changed", in, "text field tooltip: "+err.Error())
+	case gt != tip:
+		r.OracleFail("c13-textfield-tooltip-changed", in, fmt.Sprintf("text field tooltip read back %+q", gt))
+	default:
+		r.OracleOK()
+	}
+}
+
+// e2eProperties stores texts as document properties (api.AddProperties) and lists them (api.Properties).
+func e2eProperties(base []byte, texts []string) {
+	props := map[string]string{}
+	for i, t := range texts {
+		props["P"+strconv.Itoa(i)] = t
+	}
+	in := func(t string) map[string]any {
+		return map[string]any{"text_hex": hex.EncodeToString([]byte(t)), "text": fmt.Sprintf("%+q", t)}
+	}
+	var got map[string]string
+	err := func() (err error) {
+		defer func() {
+			if p := recover(); p != nil {
+				err = fmt.Errorf("panic: %v", p)
+			}
+		}()
+		var out bytes.Buffer
+		if err := api.AddProperties(bytes.NewReader(base), &out, props, model.NewDefaultConfiguration()); err != nil {
+			return fmt.Errorf("add: %w", err)
+		}
+		got, err = api.Properties(bytes.NewReader(out.Bytes()), model.NewDefaultConfiguration())
+		return err
+	}()
+	r.CountN("e2e:property", len(texts))
+	if err != nil {
+		r.OracleFail("c13-property-store-or-read-failed", map[string]any{"texts_hex": func() []string {
+			var l []string
+			for _, t := range texts {
+				l = append(l, hex.EncodeToString([]byte(t)))
+			}
+			return l
+		}()}, err.Error())
+		return
+	}
+	for i, t := range texts {
+		if g := got["P"+strconv.Itoa(i)]; g != t {
+			r.OracleFail("c13-property-changed", in(t), fmt.Sprintf("property read back %+q", g))
+		} else {
+			r.OracleOK()
+		}
+	}
+}
 
 var r *vh.Run
 
@@ -254,6 +382,7 @@ func randText(maxLen int) string {
 }
 
 func main() {
+	api.DisableConfigDir()
 	r = vh.Start("C13")
 	defer r.Finish()
 
@@ -532,5 +661,36 @@ func main() {
 		}
 		bb, err := types.HexLiteral(string(hs)).Bytes()
 		r.Case("HexDecode", []string{hex.EncodeToString(hs)}, resB(string(bb), err))
+	}
+
+	// ---- 7. end to end through pdfcpu's writers and reader
+	base, _, _, err := createForm("plain", "plain")
+	if err != nil {
+		panic("cannot create the base document: " + err.Error())
+	}
+	nonEmpty := func() string {
+		for {
+			// api.AddProperties refuses values that are empty after strings.TrimSpace
+			if t := randText(12); strings.TrimSpace(t) != "" {
+				return t
+			}
+		}
+	}
+	for i := 0; i < r.Pick(6, 60); i++ {
+		var texts []string
+		for j := 0; j < 25; j++ {
+			if i == 0 && j < len(special) && special[j] != 0 {
+				texts = append(texts, "a"+string(special[j])+string(special[(j+30)%len(special)]))
+			} else {
+				texts = append(texts, nonEmpty())
+			}
+		}
+		e2eProperties(base, texts)
+	}
+	for _, t := range []string{"hello", "a)b", "x(y", "back\\slash", "\u20ac 625,50", "\U0001F600\uE000\uD7FF\uFFFF", "line\nbreak\r", "\u2829\u5C5C"} {
+		e2eForm(t)
+	}
+	for i := 0; i < r.Pick(40, 1500); i++ {
+		e2eForm(nonEmpty())
 	}
 }
